@@ -132,14 +132,41 @@ def _compiled():
         return None
 
 
-def _lib_decode(cls, raw):
+class _Undecodable(Exception):
+    """the library reader raised on bytes the harness knows to be well-formed (already reported through src.check)"""
+
+
+def _lib_decode(cls, raw, src=None, what="", info=None):
+    """decode with the library reader; with `src` given the bytes are known to be well-formed, so an ordinary
+    exception from the reader is a violation of the round-trip clause (reported, then _Undecodable ends the path)"""
+    import struct as _struct
+
+    from aiokafka.errors import KafkaError
     out = []
-    recs = cls(bytes(raw))
-    while recs.has_next():
-        b = recs.next_batch()
-        ok = b.validate_crc()
-        out.append((b, ok, [(r.offset, r.timestamp, r.key, r.value, list(getattr(r, "headers", []) or [])) for r in b]))
+    try:
+        recs = cls(bytes(raw))
+        while recs.has_next():
+            b = recs.next_batch()
+            ok = b.validate_crc()
+            out.append((b, ok, [(r.offset, r.timestamp, r.key, r.value, list(getattr(r, "headers", []) or [])) for r in b]))
+    except (KafkaError, ValueError, IndexError, TypeError, KeyError, AssertionError, OverflowError, _struct.error) as e:
+        if src is None:
+            raise
+        src.check(False, f"{what}: reader raised {type(e).__name__} on well-formed bytes: {str(e)[:120]}", **(info or {}))
+        raise _Undecodable() from e
     return out
+
+
+def _ends_on_undecodable(fn):
+    import functools
+
+    @functools.wraps(fn)
+    def run(src, **kw):
+        try:
+            return fn(src, **kw)
+        except _Undecodable:
+            return None
+    return run
 
 
 def _zz_len(n):
@@ -152,6 +179,7 @@ def _zz_len(n):
     return k
 
 
+@_ends_on_undecodable
 def d1_v2_builder(src, max_records=3, small=False):
     keys = [None, b"k", b"K" * 64] if small else KEYS
     values = [None, b"v", VALUES[-1]] if small else VALUES
@@ -217,7 +245,7 @@ def d1_v2_builder(src, max_records=3, small=False):
     # library reader on library bytes and on reference bytes
     for label, data in (("library bytes", raw), ("reference bytes", REF.encode_v2(0, accepted, transactional=txn, producer_id=pid,
                                                                                producer_epoch=epoch, base_sequence=seq, codec=codec))):
-        dec = _lib_decode(_MemoryRecordsPy, data)
+        dec = _lib_decode(_MemoryRecordsPy, data, src, f"pure-Python reader on {label}", info)
         src.check(len(dec) == 1 and dec[0][1] and dec[0][2] == want_recs, f"pure-Python reader on {label}: records differ or CRC invalid", **info)
     if CX.available():
         # compiled codec, built from the current .pyx sources, driven in a watchdog subprocess
@@ -238,7 +266,7 @@ def d1_v2_builder(src, max_records=3, small=False):
                       "compiled builder produced a batch larger than batch_size", **info)
             if len(cacc) == len(accepted) and codec == 0:
                 src.check(craw == raw, "compiled and pure-Python builders produce different bytes for the same records", **info)
-            dec = _lib_decode(_MemoryRecordsPy, craw)
+            dec = _lib_decode(_MemoryRecordsPy, craw, src, "pure-Python reader on the compiled builder's bytes", info)
             src.check(len(dec) == 1 and dec[0][1] and dec[0][2] == cwant, "pure-Python reader decodes the compiled builder's bytes differently", **info)
             d2 = REF.decode_v2(craw)
             src.check(d2["crc_ok"] and d2["max_timestamp"] == max(x["timestamp"] for x in cacc) and d2["count"] == len(cacc),
@@ -263,6 +291,7 @@ def _cx_decode(src, raw, what, info):
     return out
 
 
+@_ends_on_undecodable
 def d2_legacy_builder(src, magic):
     n = 1 + src.choice("records", 3)
     comp = src.choice("codec_none_gzip_snappy_lz4", 4)
@@ -297,7 +326,7 @@ def d2_legacy_builder(src, magic):
         want = want[:-1]
     src.check(g == want and all(x["crc_ok"] for x in got), "reference decoder reads different records / bad CRC from the legacy builder's bytes",
               got=str(g)[:200], **info)
-    dec = _lib_decode(_MemoryRecordsPy, raw)
+    dec = _lib_decode(_MemoryRecordsPy, raw, src, "pure-Python legacy reader on the legacy builder's bytes", info)
     flat = [(o, k, v) for (_, ok, rs) in dec for (o, t, k, v, h) in rs]
     src.check(all(ok for _, ok, _ in dec), "pure-Python legacy reader reports an invalid CRC on the builder's own bytes", **info)
     src.check([(k, v) for (_, k, v) in flat] == [(r["key"], r["value"]) for r in recs], "pure-Python legacy reader round trip differs", **info)
